@@ -211,10 +211,28 @@ def _glue_entry_ok(ctx, prog, N, src, outer, cyc_types):
         return False, 'could not identify the link field of %s' % outer
     body = prog.fns[dfn]
     # R3: loop + unique ownership
-    has_loop = _has_back_edge(body)
-    uniq = [prog.callee(t) for _, t in prog.calls(dfn) if prog.callee(t) in UNIQUE_FNS]
-    ctx.ob('%s contains a loop' % dfn, has_loop)
-    ctx.ob('%s takes unique ownership via %s' % (dfn, uniq), bool(uniq))
+    # the loop may live in the Drop impl itself or in a local helper it hands the taken link to
+    cands = [dfn]
+    seen_f = {dfn}
+    work = [dfn]
+    while work:
+        f_ = work.pop()
+        for _, t_ in prog.calls(f_):
+            c_ = prog.callee(t_)
+            if c_ in prog.fns and c_ not in seen_f:
+                seen_f.add(c_)
+                cands.append(c_)
+                work.append(c_)
+    has_loop, uniq, where = False, [], dfn
+    for f_ in cands:
+        hl = _has_back_edge(prog.fns[f_])
+        uq = [prog.callee(t) for _, t in prog.calls(f_) if prog.callee(t) in UNIQUE_FNS]
+        uq += [p_ for p_ in _fn_items(prog, f_) if p_ in UNIQUE_FNS]       # passed as a function value (`.and_then(Arc::into_inner)`)
+        if hl and uq:
+            has_loop, uniq, where = True, uq, f_
+            break
+    ctx.ob('%s releases the chain in a loop (%s)' % (dfn, where), has_loop)
+    ctx.ob('%s takes unique ownership via %s' % (where, uniq), bool(uniq))
     if not has_loop or not uniq:
         ctx.finding('DROP-CYCLE', dfn, 'no-iterative-release',
                     'Drop impl does not iteratively release the chain (loop=%s, unique-ownership calls=%s)'
@@ -374,3 +392,29 @@ def _body_entry_ok(prog, fname, dname, cyc_types):
     if checked == 0:
         return False, 'no matching Drop terminator found in %s' % fname
     return True, '%d Drop terminator(s) of %s reached only with link field emptied' % (checked, dty)
+
+
+def _fn_items(prog, fname):
+    """paths of functions used as values (not called directly) in the body"""
+    out = []
+
+    def visit(o):
+        if isinstance(o, dict):
+            if o.get('k') == 'fn' and o.get('path'):
+                out.append(o['path'])
+            elif o.get('k') == 'zst':
+                ti = prog.types.get(o.get('ty')) or {}
+                if ti.get('k') == 'fndef':
+                    out.append(ti.get('path'))
+            for v in o.values():
+                visit(v)
+        elif isinstance(o, list):
+            for v in o:
+                visit(v)
+    for b in prog.fns[fname]['blocks']:
+        for s_ in b['st']:
+            visit(s_.get('rv'))
+        t = b['term']
+        if t['k'] == 'call':
+            visit(t.get('a'))
+    return out
